@@ -229,9 +229,20 @@ theorem braceIndices_cut (s : Str) :
 
 /-! ## Segments up to the spelling of a pattern -/
 
+/-- two spellings of the same pattern: identical, or the bare-variable pattern `X` against `X·ε` (what `parsePat` makes of the
+    text of the default pattern) -/
+def PatSame (p q : Pat) : Prop :=
+  p = q ∨ (p = segmentPat ∧ q = .cat segmentPat .eps) ∨ (q = segmentPat ∧ p = .cat segmentPat .eps)
+
+theorem PatSame.symm {p q : Pat} (h : PatSame p q) : PatSame q p := by
+  rcases h with h | h | h
+  · exact .inl h.symm
+  · exact .inr (.inr h)
+  · exact .inr (.inl h)
+
 def SegEq : Seg → Seg → Prop
   | .lit a, .lit b => a = b
-  | .var n p, .var m q => n = m ∧ ∀ w, Lang p w ↔ Lang q w
+  | .var n p, .var m q => n = m ∧ (∀ w, Lang p w ↔ Lang q w) ∧ PatSame p q
   | _, _ => False
 
 def SegsEq : List Seg → List Seg → Prop
@@ -241,7 +252,7 @@ def SegsEq : List Seg → List Seg → Prop
 
 theorem SegEq.refl : ∀ a : Seg, SegEq a a
   | .lit _ => rfl
-  | .var _ _ => ⟨rfl, fun _ => Iff.rfl⟩
+  | .var _ _ => ⟨rfl, fun _ => Iff.rfl, .inl rfl⟩
 
 theorem SegsEq.refl : ∀ l : List Seg, SegsEq l l
   | [] => trivial
@@ -267,13 +278,13 @@ theorem tplMatches_congr : ∀ (a b : List Seg), SegsEq a b → ∀ w bs, TplMat
       | lit _ => exact hxy.elim
       | var m q =>
         simp only [SegEq] at hxy
-        obtain ⟨rfl, hl⟩ := hxy
+        obtain ⟨rfl, hl, _⟩ := hxy
         obtain ⟨v, w', b', rfl, rfl, hv, h'⟩ := tpl_var_inv hm
         exact TplMatches.var ((hl v).1 hv) (tplMatches_congr xs ys hrest w' b' h')
 
 theorem SegEq.symm : ∀ {a b : Seg}, SegEq a b → SegEq b a
   | .lit _, .lit _, h => Eq.symm h
-  | .var _ _, .var _ _, h => ⟨h.1.symm, fun w => (h.2 w).symm⟩
+  | .var _ _, .var _ _, h => ⟨h.1.symm, fun w => (h.2.1 w).symm, h.2.2.symm⟩
   | .lit _, .var _ _, h => h.elim
   | .var _ _, .lit _, h => h.elim
 
@@ -352,7 +363,7 @@ theorem partOf_varStep (raw inner : Str) (rest : Except TplErr (List Seg)) :
     match partOf raw inner with
     | .ok part =>
         part.raw = raw ∧
-        ∃ q, (∀ w, Lang q w ↔ Lang part.pat w) ∧
+        ∃ q, (∀ w, Lang q w ↔ Lang part.pat w) ∧ PatSame q part.pat ∧
           varStep inner rest =
             (match rest with
              | .error e => .error e
@@ -370,7 +381,7 @@ theorem partOf_varStep (raw inner : Str) (rest : Except TplErr (List Seg)) :
       by_cases hn : name = []
       · simp [hn]
       · simp only [hn, if_false, parse_default]
-        refine ⟨trivial, segmentPat, ?_, ?_⟩
+        refine ⟨trivial, segmentPat, ?_, .inr (.inl ⟨rfl, rfl⟩), ?_⟩
         · intro w; rw [lang_cat_eps]; rfl
         · cases rest <;> simp [Except.map]
     | some pt =>
@@ -382,7 +393,7 @@ theorem partOf_varStep (raw inner : Str) (rest : Except TplErr (List Seg)) :
         | error e => cases e <;> simp
         | ok r =>
           obtain ⟨p, hc⟩ := r
-          exact ⟨rfl, p, fun _ => Iff.rfl, rfl⟩
+          exact ⟨rfl, p, fun _ => Iff.rfl, .inl rfl, rfl⟩
 
 /-! ## The whole loop -/
 
@@ -448,7 +459,7 @@ theorem partsLoop_mkSegs (s : Str) : ∀ (idxs : List Nat) (e : Nat) (acc : List
     | ok part =>
       rw [hp] at hstep
       simp only at hstep ⊢
-      obtain ⟨hraw, q, hq, hvs⟩ := hstep
+      obtain ⟨hraw, q, hq, hps, hvs⟩ := hstep
       have ih := partsLoop_mkSegs s r c (acc ++ [part]) h3
       rw [hvs]
       cases hres : partsLoop s r c (acc ++ [part]) with
@@ -478,7 +489,7 @@ theorem partsLoop_mkSegs (s : Str) : ∀ (idxs : List Nat) (e : Nat) (acc : List
           · have hcap' : part.hasCap = false := by simpa using hcap
             simp only [hcap', Bool.false_eq_true, if_false, Except.map, List.any_cons, Bool.false_or, hnc, true_and]
             simp only [toSegs, SegsEq, SegEq, hraw, true_and]
-            exact ⟨hq, hse⟩
+            exact ⟨⟨hq, hps⟩, hse⟩
 
 /-! ## Whole templates -/
 
